@@ -82,12 +82,53 @@ def run_case(ns, case, schedule=None, trace=False, timeout=120, force_budget=2_0
 # cases
 # --------------------------------------------------------------------------------------------
 
+def plant_range_slip(rng, prog):
+    """A FAILING program for the 'success/failure outcome' half of C03: one instruction whose
+    range-checked immediate operand (emt/trap: 0..377, mark: 0..77) is a constant of the same file
+    with a value outside that range.  The assembly must fail wherever the constant is defined."""
+    cands = []
+    for f in prog.files:
+        for c in f.consts.values():
+            if c.value is not None and not c.positional and 0 <= c.value <= 0o177000:
+                cands.append((f, c))
+    if not cands:
+        return None
+    f, c = rng.choice(cands)
+    mnem = rng.choice(["emt", "trap", "mark"])
+    limit = 0o77 if mnem == "mark" else 0o377
+    if c.value > limit:
+        operand = c.name
+    else:
+        operand = "%s + %o" % (c.name, rng.choice([0o400, 0o1000, 0o401]))
+    hi = len(f.stmts)
+    for k, st in enumerate(f.stmts):
+        if st.kind == "end":
+            hi = k
+            break
+    # never inside a probe table (header, then one .dword per symbol, constants possibly in between)
+    def inside_table(pos):
+        j = pos
+        while j < len(f.stmts) and f.stmts[j].kind == "const":
+            j += 1
+        return j < len(f.stmts) and f.stmts[j].kind in ("probe", "fprobe")
+    allowed = [q for q in range(0, hi + 1) if not inside_table(q)]
+    if not allowed:
+        return None
+    pos = rng.choice(allowed)
+    f.stmts.insert(pos, gen.Stmt(".even\n%s %s" % (mnem, operand), "planted", {"tag": "range-slip"}))
+    return (mnem, operand, f.path)
+
+
 def generated_case(rng, profile=None):
     g = gen.Gen(rng, profile)
     prog = g.program()
+    slipped = None
+    if profile and "range_slip" in profile and rng.random() < profile["range_slip"]:
+        slipped = plant_range_slip(rng, prog)
     files = prog.all_files()
     sources = [(f.path, f.text()) for f in prog.mains]
     case = Case(sources, files, rng.choice(["bk", "bk", "bk", "utf-8", "koi8-r", "cp866"]), "gen")
+    case.range_slip = slipped
     case.features = sorted(prog.features)
     case.prog = prog
     # eligible definitions
